@@ -95,6 +95,8 @@ class Path:
         self.logs = []
         self.sqrts = []
         self.atan2s = []
+        self.angle_of = {}
+        self.sqrt_sq = {}      # sqrt symbol (known non-negative radicand) -> polynomial of the radicand     # (cos term, sin term) in canonical form -> the angle they were built from
         self.divisors = {}     # denominators whose cancellation canon() relied on
         self.opaques = {}     # name -> list of (args tuple, result const)
         self.rng_limit = None
@@ -254,7 +256,9 @@ class Path:
             else:
                 a_c, a_s = self.trig_atom(PI * _rv(pi_coeff))
                 c_acc, s_acc = add(c_acc, s_acc, a_c, a_s)
-        return z3.simplify(c_acc), z3.simplify(s_acc)
+        c_fin, s_fin = canon(c_acc, self), canon(s_acc, self)
+        self.angle_of[(c_fin.sexpr(), s_fin.sexpr())] = e
+        return c_fin, s_fin
 
     # ------------------------------------------------------------ definitions
     def cached(self, kind, args, make):
@@ -279,6 +283,11 @@ class Path:
             s = self.fresh('sqrt')
             if known_nonneg:
                 self._axd((s,), z3.And(s >= 0, s * s == a))
+                try:
+                    self.sqrt_sq[s.sexpr()] = _poly(a)      # s*s may be rewritten to a (unconditionally valid)
+                    _ATOMS.setdefault(s.sexpr(), s)
+                except (OverflowError, RecursionError):
+                    pass
             else:
                 self._axd((s,), z3.Implies(a >= 0, z3.And(s >= 0, s * s == a)))
             self.defs[str(s)] = ('sqrt', a)
@@ -300,6 +309,16 @@ class Path:
     def arctan2(self, y, x):
         y = canon(y, self)
         x = canon(x, self)
+        known = self.angle_of.get((x.sexpr(), y.sexpr()))
+        if known is not None:
+            # arctan2(sin a, cos a) = a - 2 pi k, the representative in (-pi, pi]      [L-ATAN2: arg(e^{ia}) = a mod 2 pi]
+            def wrap():
+                k = self.fresh('awrap', 'int')
+                t = known - 2 * PI * z3.ToReal(k)
+                self._axd((k,), z3.And(t > -PI, t <= PI))
+                self.defs[str(k)] = ('awrap', known)
+                return t
+            return self.cached('awrap', [x, y], wrap)
 
         def make():
             t = self.fresh('atan2')
@@ -706,9 +725,10 @@ def canon(e, path=None):
         p = _poly(e)
     except (OverflowError, RecursionError):
         return e
-    if len(p) > 60:
+    if path is not None and (path.atoms or path.sqrt_sq):
+        p = _reduce_trig(p, path)
+    if len(p) > 80:
         return e
-    # which atoms occur with a negative power in the input (denominators)
     total = z3.RealVal(0)
     first = True
     for m in sorted(p, key=repr):
@@ -730,6 +750,45 @@ def canon(e, path=None):
             if k not in path.divisors:
                 path.divisors[k] = d
     return total
+
+
+def _reduce_trig(p, path):
+    """normal form modulo  sin(a)^2 = 1 - cos(a)^2  for the trig atoms of the path (L-TRIG)"""
+    pairs = {}
+    for (arg, c, s_) in path.atoms.values():
+        pairs[s_.sexpr()] = c.sexpr()
+        _ATOMS.setdefault(c.sexpr(), c)
+        _ATOMS.setdefault(s_.sexpr(), s_)
+    changed = True
+    guard = 0
+    while changed and guard < 12:
+        changed = False
+        guard += 1
+        out = {}
+        for m, q in p.items():
+            hit = None
+            for (k, pw) in m:
+                if (k in pairs or k in path.sqrt_sq) and pw >= 2:
+                    hit = (k, pw)
+                    break
+            if hit is None:
+                out[m] = out.get(m, 0) + q
+                continue
+            changed = True
+            k, pw = hit
+            rest = tuple((kk, pp) for kk, pp in m if kk != k)
+            base = {rest + (((k, pw - 2),) if pw - 2 > 0 else ()): q}
+            base = {tuple(sorted(mm)): qq for mm, qq in base.items()}
+            if k in pairs:
+                repl = {(): Fraction(1), ((pairs[k], 2),): Fraction(-1)}      # sin^2 = 1 - cos^2
+            else:
+                repl = path.sqrt_sq[k]                                       # sqrt(a)^2 = a  (a >= 0 structurally)
+            for mm, qq in _poly_mul(base, repl).items():
+                out[mm] = out.get(mm, 0) + qq
+        p = {m: q for m, q in out.items() if q != 0}
+        if len(p) > 200:
+            break
+    return p
 
 
 def _denominators(e, acc=None, seen=None):
